@@ -383,6 +383,12 @@ class HashDom(alg.Alg):
     def null_test(self, pred, p):
         return alg.Cond('icmp', pred, self.sym('&' + p.base, integer=True), 0)
 
+    def cast(self, op, v, fty, tty):
+        # a data byte widened with sign extension is a different value than the octet (bytes >= 0x80)
+        if op == 'sext' and fty.is_int and fty.a == 8 and self.concrete(v) is None and v is not symx.TOP:
+            return sp.Function('sext8')(v)
+        return alg.Alg.cast(self, op, v, fty, tty)
+
 
 def hashes(ctx):
     rep = ctx.rep
